@@ -6,6 +6,7 @@ import (
 	"context"
 	"fmt"
 	"os"
+	"os/exec"
 	"reflect"
 	"regexp"
 	"runtime"
@@ -141,9 +142,9 @@ func execute(t *testing.T, events []watch.EventType, sched []action) *obs {
 				case *appsv1.StatefulSet:
 					name = x.Name
 					idx := len(o.Received)
-					if idx < len(events) {
+					if idx < len(events) && events[idx] != watch.Error {
 						want, _ := helper.ToBuiltinStatefulSet(mkEvent(idx, events[idx]).Object.(*asv1.StatefulSet))
-						if events[idx] != watch.Error && !apiequality.Semantic.DeepEqual(want, x) {
+						if !apiequality.Semantic.DeepEqual(want, x) {
 							o.Violations = append(o.Violations, fmt.Sprintf("object-not-equivalent|event %d delivered an object that is not the built-in equivalent of the source's", idx))
 						}
 						if x.APIVersion != "apps/v1" {
@@ -374,18 +375,19 @@ func TestC20(t *testing.T) {
 	rep.Extra["schedules_executed"] = execs
 	rep.Extra["distinct_consumer_observations"] = len(outcomes)
 	rep.Extra["max_schedule_length"] = maxLen
-	rep.Rule = fmt.Sprintf("stateless exploration of the real hijack watch (opened through the real hijack client) under a controlled scheduler built on testing/synctest: the harness owns the source (unbuffered channel, stop-aware send, ends when stopped) and the consumer; after every action synctest.Wait() runs the relay goroutine to its next blocking point, so every schedule is deterministic (first 200 schedules executed twice and compared). Actions: offer next event, close source, consumer receive (only when something is deliverable), consumer Stop (<=2); every prefix of every schedule up to length %d is executed and judged as 'the consumer does nothing more from here'. Event sequences: all over {Added, Modified, Deleted, Bookmark, Error} up to length 2, length 3 over %v. Oracle: received = the source's events in order with equal type and equivalent built-in object (Error statuses relayed), no panic in the relay, and once the consumer stopped or the source ended the result channel is closed and no goroutine of the watch remains. Non-trivial = non-empty schedule.", maxLen, third)
+	rep.Rule = fmt.Sprintf("stateless exploration of the real hijack watch (opened through the real hijack client) under a controlled scheduler built on testing/synctest: the harness owns the source (unbuffered channel, stop-aware send, ends when stopped) and the consumer; after every action synctest.Wait() runs the relay goroutine to its next blocking point, so every schedule is deterministic (first 200 schedules executed twice and compared). Actions: offer next event, close source, consumer receive (only when something is deliverable), consumer Stop (<=2); every prefix of every schedule up to length %d is executed and judged as 'the consumer does nothing more from here'. Event sequences: all over {Added, Modified, Deleted, Bookmark, Error} up to length 2, length 3 over %v. Oracle: received = the source's events in order with equal type and equivalent built-in object (Error statuses relayed), no panic in the relay, and once the consumer stopped or the source ended the result channel is closed and no goroutine of the watch remains. Three further scenarios put a scheduling point inside Stop (a source whose Stop blocks until released; each in a child process): consumer/consumer, relay/consumer and consumer/relay overlapping Stop calls must neither panic nor leave the channel open. Non-trivial = non-empty schedule.", maxLen, third)
 	rep.Assumptions = []string{"rendezvous granularity: between two channel operations the relay touches shared state only under Stop's mutex; a separate free-running -race pass of the same bodies (TestC20Race) guards that premise", "goroutine leaks are counted with runtime.NumGoroutine relative to the count before the watch was opened, inside the synctest bubble"}
+	rep.Extra["overlapping_stop_scenarios"] = runOverlapScenarios(rep)
 	race := os.Getenv("VERIF_C20_RACE")
 	rep.Extra["free_running_race_pass"] = race
 	switch race {
 	case "race":
-		out, _ := os.ReadFile(os.Getenv("VERIF_ROOT") + "/bin/c20.race.out")
+		out, _ := os.ReadFile(binDir() + "/c20.race.out")
 		rep.Violation("C20", "data-race", "the free-running -race pass of the watch bodies reports a data race (the rendezvous-granularity premise does not hold)", func() interface{} {
 			return map[string]interface{}{"kind": "c20-race", "race_detector_output": string(out)}
 		})
 	case "failed":
-		out, _ := os.ReadFile(os.Getenv("VERIF_ROOT") + "/bin/c20.race.out")
+		out, _ := os.ReadFile(binDir() + "/c20.race.out")
 		rep.Violation("C20", "free-running-pass-failed", "the free-running pass of the watch bodies failed (result channel never closed, or a panic)", func() interface{} {
 			return map[string]interface{}{"kind": "c20-race", "output": string(out)}
 		})
@@ -394,7 +396,7 @@ func TestC20(t *testing.T) {
 	if code != 0 {
 		t.Fail()
 	}
-	os.WriteFile(os.Getenv("VERIF_ROOT")+"/bin/c20.exit", []byte(fmt.Sprint(code)), 0o644)
+	os.WriteFile(binDir()+"/c20.exit", []byte(fmt.Sprint(code)), 0o644)
 }
 
 func sha(s string) [16]byte {
@@ -473,3 +475,169 @@ func newRaceSource() *raceSource {
 }
 func (s *raceSource) ResultChan() <-chan watch.Event { return s.ch }
 func (s *raceSource) Stop()                          { s.once.Do(func() { close(s.stopped) }) }
+
+// ---- overlapping Stop calls (a scheduling point inside Stop) ----
+//
+// The schedules above treat Stop as atomic because the harness' source returns
+// from Stop at once. Here the source's Stop blocks until released, which puts
+// a scheduling point inside hijackWatch.Stop: a second Stop (from the consumer
+// or from the relay's own deferred Stop) can start while the first is still
+// inside. Each scenario runs in a child process, because a panic in the relay
+// goroutine cannot be recovered.
+
+type blockSource struct {
+	ch      chan watch.Event
+	entered chan struct{}
+	release chan struct{}
+}
+
+func (s *blockSource) ResultChan() <-chan watch.Event { return s.ch }
+func (s *blockSource) Stop() {
+	select {
+	case s.entered <- struct{}{}:
+	default:
+	}
+	<-s.release
+}
+
+// settled waits until done is closed or a goroutine whose stack mentions marker is blocked on a mutex.
+func settled(done chan struct{}, marker string) string {
+	for i := 0; i < 20000; i++ {
+		select {
+		case <-done:
+			return "returned"
+		default:
+		}
+		buf := make([]byte, 1<<18)
+		buf = buf[:runtime.Stack(buf, true)]
+		for _, g := range strings.Split(string(buf), "\n\n") {
+			if strings.Contains(g, marker) && (strings.Contains(g, "sync.(*Mutex).Lock") || strings.Contains(g, "[sync.Mutex.Lock") || strings.Contains(g, "semacquire")) {
+				return "blocked-on-mutex"
+			}
+		}
+		time.Sleep(time.Millisecond)
+	}
+	return "unsettled"
+}
+
+func overlapStopB(w watch.Interface, done chan struct{}, pan *string) {
+	defer close(done)
+	defer func() {
+		if r := recover(); r != nil {
+			*pan = fmt.Sprint(r)
+		}
+	}()
+	w.Stop()
+}
+
+func TestC20OverlapChild(t *testing.T) {
+	scenario := os.Getenv("VERIF_C20_OVERLAP")
+	if scenario == "" {
+		t.Skip("child of TestC20")
+	}
+	world.GlobalInit()
+	utilruntime.ReallyCrash = false
+	kube, pc := kubefake.NewSimpleClientset(), pcfake.NewSimpleClientset()
+	src := &blockSource{ch: make(chan watch.Event), entered: make(chan struct{}, 4), release: make(chan struct{})}
+	pc.PrependWatchReactor("statefulsets", func(clienttesting.Action) (bool, watch.Interface, error) { return true, src, nil })
+	w, err := helper.NewHijackClient(kube, pc).AppsV1().StatefulSets("default").Watch(context.TODO(), metav1.ListOptions{})
+	if err != nil {
+		t.Fatal(err)
+	}
+	var panA, panB string
+	doneA, doneB := make(chan struct{}), make(chan struct{})
+	first := func() { // the first Stop enters the source's Stop and stays there
+		switch scenario {
+		case "consumer-consumer", "consumer-relay":
+			go overlapStopB(w, doneA, &panA)
+		case "relay-consumer":
+			close(src.ch) // the source ends: the relay returns and its deferred Stop runs
+			close(doneA)
+		}
+		select {
+		case <-src.entered:
+		case <-time.After(20 * time.Second):
+			fmt.Println("RESULT harness first Stop never reached the source")
+			os.Exit(3)
+		}
+	}
+	first()
+	state := ""
+	switch scenario {
+	case "consumer-consumer", "relay-consumer":
+		go overlapStopB(w, doneB, &panB)
+		state = settled(doneB, "overlapStopB")
+	case "consumer-relay":
+		close(src.ch) // the relay's deferred Stop starts while the consumer's is inside
+		close(doneB)
+		state = settled(make(chan struct{}), "(*hijackWatch).receive")
+		if state == "unsettled" {
+			state = "relay-returned-or-running"
+		}
+	}
+	close(src.release)
+	if scenario != "relay-consumer" && scenario != "consumer-relay" {
+		close(src.ch)
+	}
+	for _, d := range []chan struct{}{doneA, doneB} {
+		select {
+		case <-d:
+		case <-time.After(20 * time.Second):
+			fmt.Println("RESULT violation stop-never-returns|a Stop call did not return after the source's Stop was released")
+			os.Exit(0)
+		}
+	}
+	if panA != "" || panB != "" {
+		fmt.Printf("RESULT violation overlapping-stop-panic|%s: overlapping Stop calls panicked: %s%s (second Stop was %s)\n", scenario, panA, panB, state)
+		os.Exit(0)
+	}
+	select {
+	case _, ok := <-w.ResultChan():
+		if ok {
+			fmt.Println("RESULT violation unexpected-event|event delivered without a source event")
+			os.Exit(0)
+		}
+	case <-time.After(20 * time.Second):
+		fmt.Println("RESULT violation not-closed-after-stop|result channel not closed after overlapping Stop calls returned")
+		os.Exit(0)
+	}
+	fmt.Printf("RESULT ok %s second Stop was %s\n", scenario, state)
+}
+
+func runOverlapScenarios(rep *explore.Report) int {
+	n := 0
+	for _, sc := range []string{"consumer-consumer", "relay-consumer", "consumer-relay"} {
+		cmd := exec.Command(os.Args[0], "-test.run", "TestC20OverlapChild$", "-test.count=1", "-test.timeout", "3m")
+		cmd.Env = append(os.Environ(), "VERIF_C20_OVERLAP="+sc)
+		out, err := cmd.CombinedOutput()
+		n++
+		text := string(out)
+		switch {
+		case strings.Contains(text, "RESULT ok"):
+		case strings.Contains(text, "RESULT violation"):
+			line := text[strings.Index(text, "RESULT violation")+len("RESULT violation "):]
+			line = strings.SplitN(line, "\n", 2)[0]
+			p := strings.SplitN(line, "|", 2)
+			rep.Violation("C20", p[0], "overlap scenario "+sc+": "+p[len(p)-1], func() interface{} {
+				return map[string]interface{}{"kind": "c20-overlap", "scenario": sc, "output": text}
+			})
+		case strings.Contains(text, "panic:"):
+			msg := text[strings.Index(text, "panic:"):]
+			msg = strings.SplitN(msg, "\n", 2)[0]
+			rep.Violation("C20", "overlapping-stop-panic", "overlap scenario "+sc+": the process died: "+msg, func() interface{} {
+				return map[string]interface{}{"kind": "c20-overlap", "scenario": sc, "output": text}
+			})
+		default:
+			fmt.Fprintf(os.Stderr, "HARNESS ERROR: overlap scenario %s: err=%v\n%s\n", sc, err, text)
+			os.Exit(2)
+		}
+	}
+	return n
+}
+
+func binDir() string {
+	if d := os.Getenv("VERIF_C20_BIN"); d != "" {
+		return d
+	}
+	return os.Getenv("VERIF_ROOT") + "/bin"
+}
